@@ -148,6 +148,9 @@ func (a *Activation) callContract(ins *ssa.Call, g *ssa.Function, spec *FuncSpec
 					x.oblige(a.oname("frame:call:"+site), sanitize(key), *rc, goal, ins.Pos(), nil, "callee may modify "+key+" only inside the caller's modifies clause")
 				}
 			}
+			if fr.allElems && !x.frame.allElems {
+				x.oblige(a.oname("frame:call:"+site), "elems", *rc, "false", ins.Pos(), nil, "callee may modify the elements of any slice (elems(*)); the caller's modifies clause does not allow that")
+			}
 			for _, ar := range fr.elems {
 				x.oblige(a.oname("frame:call:"+site), "elems", *rc, x.frame.allowsElems(ar, x.alloc0), ins.Pos(), nil, "callee may modify slice elements only inside the caller's modifies clause")
 			}
@@ -214,6 +217,12 @@ func (a *Activation) callContract(ins *ssa.Call, g *ssa.Function, spec *FuncSpec
 		a.ghostAt("after "+site, st, *rc, nil, func(n string) (Val, bool) {
 			if n == "callresult" && len(rs) > 0 {
 				return rs[0], true
+			}
+			// callresult0, callresult1, ...: the components of a tuple result (some may be discarded by the caller)
+			if strings.HasPrefix(n, "callresult") && len(n) == len("callresult")+1 {
+				if k := int(n[len(n)-1] - '0'); k >= 0 && k < len(rs) {
+					return rs[k], true
+				}
 			}
 			if v, ok := ghostRes[n]; ok {
 				return v, true
